@@ -298,7 +298,7 @@ func (sc *mScene) setup() error {
 			}
 		})
 		vsched.Sleep(time.Second)
-	case "hub-fund", "hub-fund2", "hub-settle", "hub-settle2":
+	case "hub-fund", "hub-fund2", "hub-settle", "hub-settle2", "hub-fund-quiet", "hub-settle-quiet":
 		return sc.setupHub(base)
 	default:
 		return fmt.Errorf("unknown history point %q", pt)
@@ -326,6 +326,9 @@ func (sc *mScene) setupHub(base string) error {
 		}
 	}
 	settle := strings.HasPrefix(base, "hub-settle")
+	// "-quiet": B stays silent (its funding proposal is lost on the way / it does not settle), so M's
+	// own well-formed proposal finds no partner at the hub
+	quiet := strings.HasSuffix(base, "-quiet")
 	sc.holdM = true
 	armed := !settle // hub-settle: the funding runs honestly, interception starts with the settlement
 	w.Bus.Drop = func(e *wire.Envelope) bool {
@@ -339,7 +342,7 @@ func (sc *mScene) setupHub(base string) error {
 			}
 			if w.partyOf(e.Sender) == sc.B.Idx {
 				sc.bobSent = true
-				return false
+				return quiet
 			}
 			if w.partyOf(e.Sender) == sc.M.Idx {
 				if sc.realVFund == nil {
@@ -414,6 +417,10 @@ func (sc *mScene) setupHub(base string) error {
 		ch   *client.Channel
 	}{{"M", va}, {"B", vb}} {
 		x := x
+		if quiet && x.name == "B" {
+			sc.bobSent = true // B does not settle
+			continue
+		}
 		vsched.GoNamed("settle-virtual-"+x.name, func() {
 			ctx, cancel := context.WithTimeout(context.Background(), 30*time.Second)
 			defer cancel()
@@ -592,6 +599,15 @@ func (sc *mScene) probe() (out []mProbeRes) {
 	if sc.led != nil && !strings.HasPrefix(sc.Pt, "final") && !sc.ledMoved {
 		one("update of the ledger channel proposed by M", sc.mled)
 		one("update of the ledger channel proposed by V", sc.led)
+	}
+	if sc.ledMoved {
+		// The victim accepted a crafted update of this channel that the real M never sent: M is a version
+		// behind and will not answer. The victim must still get through its own request in bounded time:
+		// a refusal or "the peer did not respond" is fine, a machine mutex that cannot be taken is not.
+		one("update of the ledger channel proposed by V (the real M is out of step: ok = completed, refused or unanswered)", sc.led)
+		if r := &out[len(out)-1]; r.Res == "timeout" || r.Res == "rejected" {
+			r.Res = "ok"
+		}
 	}
 	if sc.ledB != nil {
 		one("update of the ledger channel with B proposed by B", sc.mledB)
